@@ -646,6 +646,20 @@ static void need_case(stripe_t *s, int *r, int *x) {
 static void perm(int *a, int n) { for (int i = n - 1; i > 0; i--) { int j = (int)rnd(i + 1); int t = a[i]; a[i] = a[j]; a[j] = t; } }
 
 void suite_need(int tier) {
+    /* far beyond tolerance, and lists as long as (or longer than) the stripe: everything else excluded, every fragment
+       requested, an index repeated many times — an error (model: -1), never a wrong list, never a fault */
+    for (int xi = -3; xi < n_xor_shapes; xi++) {
+        cfg_t c = xi >= 0 ? (cfg_t){ 3, xor_shapes[xi][0], xor_shapes[xi][1], xor_shapes[xi][2], 1 } : (xi == -1 ? (cfg_t){ 6, 4, 2, 2, 1 } : (xi == -2 ? (cfg_t){ 6, 1, 1, 1, 1 } : (cfg_t){ 6, 10, 4, 4, 1 }));
+        if (!tier && xi >= 0 && xi % 3 != (int)rnd(3)) continue;
+        int n = c.k + c.m, r[80], x[80];
+        r[0] = 0; r[1] = -1; for (int i = 1; i < n; i++) x[i - 1] = i; x[n - 1] = -1;
+        op_need(c, r, x, NULL, 1);                                   /* rebuild 0 from nothing */
+        for (int i = 0; i < n; i++) r[i] = n - 1 - i; r[n] = -1; x[0] = -1;
+        op_need(c, r, x, NULL, 1);                                   /* rebuild everything */
+        r[0] = c.k - 1; r[1] = -1; for (int i = 0; i < n + 7; i++) x[i] = (i * 3) % n == c.k - 1 ? 0 : (i * 3) % n; x[n + 7] = -1;
+        op_need(c, r, x, NULL, 1);                                   /* a long exclude list with repetitions */
+        stat_add("need.long_lists", 3);
+    }
     /* direct oracle, exhaustive: every XOR table, every set below hd, every split into (R, X), two orders */
     g_need_quiet = 1;
     for (int xi = 0; xi < n_xor_shapes; xi++) {
